@@ -148,6 +148,10 @@ Record facts := {
   f_tl_falsy_empty : bool;         (* typedlist.__init__: `if not values: values = []` *)
   f_dt_arg_utc : bool;             (* datetime.__new__: `tzinfo = arg.tzinfo or UTC` *)
   f_dt_final_utc : bool;           (* datetime.__new__: `if obj.tzinfo is None: obj = obj.replace(tzinfo=UTC)` *)
+  f_tl_elem_class : bool;          (* behavioural: for EVERY whitelist entry T, fieldtype(T + "[]") is a list class
+                                      whose element class is fieldtype(T) -- after all entries have been resolved, in
+                                      forward and in reverse order (fresh interpreters).  This is what lets the model
+                                      write the list type of T as [TList T]. *)
   f_grouped_delegates : bool       (* GroupedRecord.__setattr__ hands a member's field to setattr(member, attr, val),
                                       i.e. to Record.__setattr__; false: it stores with object.__setattr__ *)
 }.
